@@ -1,9 +1,146 @@
--- line-protocol handler of property C18 (stub: nothing modelled yet)
+-- line-protocol handler of property C18 (security estimate and acceptance policy)
+-- op lines (after the property id), mirrored by harness/src/bin/c18.rs:
+--   opts q b g ext ff fr                         ProofOptions::new             -> ok | panic
+--   bits modhex                                  Context::num_modulus_bits     -> n | panic
+--   conj b g ext log2len modhex hname cr         security_level(true), q = 1..255 -> run-length coded levels (p = panic)
+--   prov b g ext log2len modhex hname cr q1 q2   security_level(false), q = q1..q2
+--   alpha b log2len                              side condition 0 <= 1-theta_plus < 1 over the m range -> mMax bad
+--   validate POL q b g ext ff fr log2len modhex hname cr [k o1.. ok]      AcceptableOptions::validate
+--   verify CFG EB airmodhex quad cube airok POL q b g ext ff fr log2len modhex hname cr [k o1..]   top of verify()
+--     POL = conj MIN | proven MIN | set
 import Winter.Drv.Util
+import Winter.Model.Security
 
 namespace Drv.C18
+open Model.Security
 
-def handle (_toks : List String) : String := "-"
+def resStr : Res Nat → String
+  | .ok n => toString n
+  | .panic _ => "panic"
+
+def resShort : Res Nat → String
+  | .ok n => toString n
+  | .panic _ => "p"
+
+/-- run-length coding of a list of tokens: `v*k` for k > 1 equal neighbours -/
+def rleAux : List String → String → Nat → List String → List String
+  | [], cur, k, acc => ((if k > 1 then s!"{cur}*{k}" else cur) :: acc).reverse
+  | x :: xs, cur, k, acc =>
+    if x == cur then rleAux xs cur (k + 1) acc
+    else rleAux xs x 1 ((if k > 1 then s!"{cur}*{k}" else cur) :: acc)
+
+def rle : List String → String
+  | [] => ""
+  | x :: xs => ",".intercalate (rleAux xs x 1 [])
+
+def mkOptions : List Nat → Option Options
+  | [q, b, g, e, ff, fr] =>
+    match Ext.ofNat? e with
+    | some e => some ⟨q, b, g, e, ff, fr⟩
+    | none => none
+  | _ => none
+
+def optionSets : List Nat → Option (List Options)
+  | [] => some []
+  | a :: b :: c :: d :: e :: f :: rest =>
+    match mkOptions [a, b, c, d, e, f], optionSets rest with
+    | some o, some os => some (o :: os)
+    | _, _ => none
+  | _ => none
+
+def errStr : VErr → String
+  | .inconsistentBaseField => "err field"
+  | .unsupportedFieldExtension d => s!"err ext {d}"
+  | .insufficientConjecturedSecurity m l => s!"err conj {m} {l}"
+  | .insufficientProvenSecurity m l => s!"err proven {m} {l}"
+  | .unacceptableProofOptions => "err options"
+
+def outStr (okWord : String) : Out → String
+  | .pass => okWord
+  | .reject e => errStr e
+  | .panic _ => "panic"
+
+/-- parse `POL q b g ext ff fr log2len modhex cr [k o...]` -/
+def parsePolicy (toks : List String) : Option (Acceptable × ProofHead × Nat) :=
+  let go (mk : List Options → Acceptable) (rest : List String) : Option (Acceptable × ProofHead × Nat) :=
+    match rest with
+    | q :: b :: g :: e :: ff :: fr :: l2 :: modhex :: _hname :: cr :: tail =>
+      match natList [q, b, g, e, ff, fr, l2, cr], unhex modhex, natList tail with
+      | some [q, b, g, e, ff, fr, l2, cr], some bytes, some tailN =>
+        match mkOptions [q, b, g, e, ff, fr], optionSets (tailN.drop 1) with
+        | some o, some set =>
+          if bytes.isEmpty ∨ l2 > 63 ∨ q > 255 ∨ b > 255 ∨ g > 255 ∨ ff > 255 ∨ fr > 255 then none
+          else some (mk set, ⟨bytes, o, 2 ^ l2⟩, cr)
+        | _, _ => none
+      | _, _, _ => none
+    | _ => none
+  match toks with
+  | "conj" :: m :: rest => match m.toNat? with
+    | some m => go (fun _ => .minConjectured m) rest
+    | none => none
+  | "proven" :: m :: rest => match m.toNat? with
+    | some m => go (fun _ => .minProven m) rest
+    | none => none
+  | "set" :: rest => go (fun s => .optionSet s) rest
+  | _ => none
+
+def alphaBad (b n : Nat) : Nat × Nat :=
+  let mMax := floatOps.toU32 (computeUpperM (R := Float) n)
+  let bad := (mRange (R := Float) n).foldl (fun acc m =>
+    let x := (mid (R := Float) b (n * b) n m).base
+    if (0.0 : Float) ≤ x ∧ x < (1.0 : Float) then acc else acc + 1) 0
+  (mMax, bad)
+
+def handle : List String → String
+  | "opts" :: rest =>
+    match natList rest with
+    | some [q, b, g, e, ff, fr] =>
+      match Ext.ofNat? e with
+      | some e => if (Options.new q b g e ff fr).isOk then "ok" else "panic"
+      | none => "bad-op"
+    | _ => "bad-op"
+  | ["bits", modhex] =>
+    match unhex modhex with
+    | some bytes => if bytes.isEmpty ∨ bytes.length > 255 then "bad-op" else resStr (numModulusBits bytes)
+    | none => "bad-op"
+  | ["conj", b, g, e, l2, modhex, _hname, cr] =>
+    match natList [b, g, e, l2, cr], unhex modhex with
+    | some [b, g, e, l2, cr], some bytes =>
+      match Ext.ofNat? e with
+      | some e =>
+        if bytes.isEmpty ∨ l2 > 63 ∨ b > 255 ∨ g > 255 then "bad-op" else
+        rle ((List.range 255).map fun i =>
+          resShort (securityLevel ⟨i + 1, b, g, e, 8, 0⟩ bytes (2 ^ l2) cr true))
+      | none => "bad-op"
+    | _, _ => "bad-op"
+  | ["prov", b, g, e, l2, modhex, _hname, cr, q1, q2] =>
+    match natList [b, g, e, l2, cr, q1, q2], unhex modhex with
+    | some [b, g, e, l2, cr, q1, q2], some bytes =>
+      match Ext.ofNat? e with
+      | some e =>
+        if bytes.isEmpty ∨ l2 > 63 ∨ b > 255 ∨ g > 255 ∨ q2 > 255 then "bad-op" else
+        rle ((List.range (q2 + 1 - q1)).map fun i =>
+          resShort (securityLevel ⟨q1 + i, b, g, e, 8, 0⟩ bytes (2 ^ l2) cr false))
+      | none => "bad-op"
+    | _, _ => "bad-op"
+  | ["alpha", b, l2] =>
+    match natList [b, l2] with
+    | some [b, l2] =>
+      if b = 0 ∨ l2 > 63 then "bad-op" else
+      let (m, bad) := alphaBad b (2 ^ l2); s!"{m} {bad}"
+    | _ => "bad-op"
+  | "validate" :: rest =>
+    match parsePolicy rest with
+    | some (a, p, cr) =>
+      outStr "ok" (validate a p.options (securityLevel p.options p.modulusBytes p.traceLen cr))
+    | none => "bad-op"
+  | "verify" :: _cfg :: eb :: airmod :: quad :: cube :: airok :: rest =>
+    match natList [eb, quad, cube, airok], unhex airmod, parsePolicy rest with
+    | some [eb, quad, cube, airok], some airBytes, some (a, p, cr) =>
+      let v : VerifierSide := ⟨airBytes, eb, quad == 1, cube == 1, cr, airok == 1⟩
+      outStr "pass" (verifyTop a v p)
+    | _, _, _ => "bad-op"
+  | _ => "bad-op"
 
 end Drv.C18
 
